@@ -113,13 +113,34 @@ def confirmed (latest height conf : Nat) : Bool := height + conf < latest
 def eligible (m : List (Nat × Status)) (mt : Dep → Bool) (ds : List Dep) : List Dep :=
   ds.filter fun d => mt d && decide (lookup m d.key ≠ .executed)
 
-/-- P17 (single retry): only eligible deposits, in order; at most one eligible deposit is withheld per failing store
-    call (so all of them are emitted when no call fails); an emitted deposit that was pending is released (failed);
-    nothing else is written — in particular executed stays executed -/
+/-- positional specification of one retry: per deposit of the block, in order, is it re-emitted? A deposit is re-emitted
+    iff it matches the request, ITS OWN status read succeeds, the record is not `executed`, and — if the record is
+    `pending` — ITS OWN release write succeeds. The store calls of a deposit are the next one (read) or two (read, then
+    the release write of a pending record) entries of the fault stream; a non-matching deposit makes no call. -/
+def emitFlags (mt : Dep → Bool) : List (Nat × Status) → List Bool → List Dep → List Bool
+  | _, _, [] => []
+  | m, fs, d :: r =>
+    if !mt d then false :: emitFlags mt m fs r
+    else if fs.head? = some true then false :: emitFlags mt m (fs.drop 1) r      -- own read failed: withheld
+    else match lookup m d.key with
+      | .executed => false :: emitFlags mt m (fs.drop 1) r
+      | .pending =>
+        if (fs.drop 1).head? = some true then false :: emitFlags mt m (fs.drop 2) r   -- own release write failed
+        else true :: emitFlags mt ((d.key, .failed) :: m) (fs.drop 2) r
+      | _ => true :: emitFlags mt m (fs.drop 1) r
+
+/-- the deposits whose flag is set, in block order -/
+def pick : List Dep → List Bool → List Dep
+  | d :: r, true :: fl => d :: pick r fl
+  | _ :: r, false :: fl => pick r fl
+  | _, _ => []
+
+/-- P17 (single retry): exactly the deposits the positional specification names, in block order (hence only eligible
+    ones; all of them when no store call fails); an emitted deposit that was pending is released (failed); nothing else
+    is written — in particular executed stays executed -/
 def P17 (m : List (Nat × Status)) (faults : List Bool) (mt : Dep → Bool) (ds out : List Dep)
     (m' : List (Nat × Status)) : Prop :=
-  out.Sublist (eligible m mt ds) ∧
-  (eligible m mt ds).length ≤ out.length + faults.count true ∧
+  out = pick ds (emitFlags mt m faults ds) ∧
   (∀ d ∈ out, lookup m d.key = .pending → lookup m' d.key = .failed) ∧
   (∀ d ∈ ds, lookup m' d.key = lookup m d.key ∨
       (lookup m d.key = .pending ∧ lookup m' d.key = .failed ∧ ∃ d' ∈ ds, mt d' = true ∧ d'.key = d.key))
@@ -200,8 +221,10 @@ deriving Repr
 
 inductive HOp
   | deliver (ks : List Nat) (faults : List Bool)             -- Execute → proposalsForExecution
-  | outcome (id : Nat) (ok : Bool) (faults : List Bool)      -- sendTx result → storeProposalsStatus(executed|failed)
-  | lost (id : Nat)                                          -- timeout / crash / rawTx error: no outcome recorded
+  -- `Execute` splits a delivery per resource; every group is signed, sent and recorded on its own. `grp` = the
+  -- proposals of the group concerned (those of them that delivery `id` has in flight)
+  | outcome (id : Nat) (grp : List Nat) (ok : Bool) (faults : List Bool)   -- sendTx result → storeProposalsStatus
+  | lost (id : Nat) (grp : List Nat)                         -- timeout / crash / rawTx error: no outcome recorded
   | retry (ds : List Dep) (res dest : Nat) (faults : List Bool)
 deriving Repr
 
@@ -212,7 +235,10 @@ inductive HRes
   | hang                                 -- blocked on propMutex for good
 deriving Repr, DecidableEq
 
-def keysOf (st : HState) (id : Nat) : List Nat := (st.inflight.filter (·.1 = id)).map (·.2)
+/-- the in-flight pairs of group `grp` of delivery `id` -/
+def inGroup (id : Nat) (grp : List Nat) (p : Nat × Nat) : Bool := p.1 = id && grp.contains p.2
+
+def keysOf (st : HState) (id : Nat) (grp : List Nat) : List Nat := (st.inflight.filter (inGroup id grp)).map (·.2)
 
 /-- one operation. `unlockOnErr = true` is the repaired code (deferred unlock); `false` the code as found. -/
 def hstep (unlockOnErr : Bool) (st : HState) : HOp → HRes × HState
@@ -222,11 +248,11 @@ def hstep (unlockOnErr : Bool) (st : HState) : HOp → HRes × HState
     | (none, s')    => (.selected none, { st with m := s'.m, next := st.next + 1, held := !unlockOnErr })
     | (some ps, s') => (.selected (some ps),
         { st with m := s'.m, next := st.next + 1, inflight := st.inflight ++ ps.map (fun k => (st.next, k)) })
-  | .outcome id ok f =>
+  | .outcome id grp ok f =>
     if st.held then (.hang, st) else
-    (.done, { st with m := (storeStatus ⟨st.m, f⟩ (keysOf st id) (if ok then .executed else .failed)).m,
-                      inflight := st.inflight.filter (·.1 ≠ id) })
-  | .lost id => (.done, { st with inflight := st.inflight.filter (·.1 ≠ id) })
+    (.done, { st with m := (storeStatus ⟨st.m, f⟩ (keysOf st id grp) (if ok then .executed else .failed)).m,
+                      inflight := st.inflight.filter (fun p => !inGroup id grp p) })
+  | .lost id grp => (.done, { st with inflight := st.inflight.filter (fun p => !inGroup id grp p) })
   | .retry ds res dest f =>
     let (o, s') := filterDeposits res dest ⟨st.m, f⟩ ds
     (.emitted o, { st with m := s'.m })
@@ -240,6 +266,22 @@ def hfinal (u : Bool) : HState → List HOp → HState
   | st, op :: r => hfinal u (hstep u st op).2 r
 
 def init : HState := ⟨[], [], 0, false⟩
+
+/-- THE PROPERTY AS STATED, with no sequentiality proviso ("executed stays executed through ANY later sequence"): the
+    same machine, except that recording an outcome leaves an `executed` record alone. The code does not do this (see
+    `overlap_hazard` and the known finding C17-overlap-late-failure); op `histstrict` judges the code against it. -/
+def hstepStrict (st : HState) : HOp → HRes × HState
+  | .outcome id grp ok f =>
+    if st.held then (.hang, st) else
+    (.done, { st with
+      m := (storeStatus ⟨st.m, f⟩ ((keysOf st id grp).filter fun k => lookup st.m k != .executed)
+              (if ok then .executed else .failed)).m,
+      inflight := st.inflight.filter (fun p => !inGroup id grp p) })
+  | op => hstep true st op
+
+def hrunStrict : HState → List HOp → List (HRes × HState)
+  | _, [] => []
+  | st, op :: r => let x := hstepStrict st op; x :: hrunStrict x.2 r
 
 /-- sequential histories: a retry does not touch a deposit whose execution is still in flight (its outcome is
     recorded, or the execution is lost, before the deposit is released again) -/
@@ -262,13 +304,13 @@ def stepOk (op : HOp) (prev next : List (Nat × Status)) (n : Nat) : Bool :=
     match op with
     | .deliver _ _   => b == a || (canExec a && (b == .pending || b == .failed))
     | .retry _ _ _ _ => b == a || (a == .pending && b == .failed)
-    | .lost _        => a != .executed || b == .executed
-    | .outcome _ _ _ => true
+    | .lost _ _      => a != .executed || b == .executed
+    | .outcome _ _ _ _ => true
 
 /-- record `k` belongs to the execution whose outcome `op` records -/
 def touches (st : HState) (op : HOp) (k : Nat) : Bool :=
   match op with
-  | .outcome id _ _ => (keysOf st id).contains k
+  | .outcome id grp _ _ => (keysOf st id grp).contains k
   | _ => false
 
 /-- no later outcome recording concerns record `k` -/
@@ -284,14 +326,14 @@ def raceOrder (m : List (Nat × Status)) (kb ka : List Nat) (bFirst : Bool) :
   if bFirst then
     let b := hstep true st0 (.deliver kb [])
     let a := hstep true b.2 (.deliver ka [])
-    let s1 := (hstep true a.2 (.outcome 1 true [])).2
-    let s2 := (hstep true s1 (.outcome 0 false [])).2
+    let s1 := (hstep true a.2 (.outcome 1 ka true [])).2
+    let s2 := (hstep true s1 (.outcome 0 kb false [])).2
     (b.1, a.1, s2.m)
   else
     let a := hstep true st0 (.deliver ka [])
-    let s1 := (hstep true a.2 (.outcome 0 true [])).2
+    let s1 := (hstep true a.2 (.outcome 0 ka true [])).2
     let b := hstep true s1 (.deliver kb [])
-    let s2 := (hstep true b.2 (.outcome 1 false [])).2
+    let s2 := (hstep true b.2 (.outcome 1 kb false [])).2
     (b.1, a.1, s2.m)
 
 /-- PRace: two concurrent deliveries behave like one of the two serial orders (each delivery's check-and-mark is
